@@ -198,7 +198,11 @@ func main() {
 	if *replayOnly != "" {
 		os.Exit(r.replayFile(*replayOnly))
 	}
-	os.Exit(r.run())
+	code := r.run()
+	if r.rewriteDir != "" {
+		os.RemoveAll(r.rewriteDir)
+	}
+	os.Exit(code)
 }
 
 func fatal(code int, format string, args ...any) {
